@@ -40,6 +40,7 @@ def cases(tier):
             for sl in (1, 2):
                 out.append({"name": "g%s_s%d" % ("".join(map(str, lens)), sl), "glens": list(lens), "slens": [sl]})
     out.append({"name": "g1_s1s1", "glens": [1], "slens": [1, 1]})
+    out.append({"name": "reopen_with_groups_reordered", "glens": [1, 1], "slens": [1, 1], "reopen": True})
     out.append({"name": "g2_s1s2", "glens": [2], "slens": [1, 2]})
     if tier == "thorough":
         out.append({"name": "g111_s1", "glens": [1, 1, 1], "slens": [1]})
@@ -52,7 +53,6 @@ def run_case(case):
     mods, fopen = fsmodel.make_modules(fs)
     eb = dict(EXTRA_BUILTINS)
     eb["open"] = fopen
-    eb["hash"] = lambda x: 0 if isinstance(x, SStr) else hash(x)
     T = Twin(fakes=mods, ast_transformers=[Rewrite()], extra_builtins=eb)
     PA = T.mod("panoptica.panoptica_aggregator")
     PS = T.mod("panoptica.panoptica_statistics")
@@ -79,7 +79,7 @@ def run_case(case):
         for (s, g, m), v in val.items():
             k = KINDS[jsonable(kind[(s, g)], mo)] if m == 0 else "finite"
             cells["%d,%d,%d" % (s, g, m)] = {"kind": k, "value": jsonable(v, mo)}
-        return {"groups": gn, "subjects": sn, "metrics": METRIC_KEYS, "cells": cells}
+        return {"groups": gn, "subjects": sn, "metrics": METRIC_KEYS, "cells": cells, "reopen": bool(case.get("reopen"))}
     h = H(PROP, case["name"], decode, replay_kind="roundtrip", max_witnesses=25)
 
     class FakeResult:
@@ -120,6 +120,19 @@ def run_case(case):
         try:
             agg = PA.Panoptica_Aggregator(Ev(), "/out/results.tsv")
             for s in range(S):
+                if case.get("reopen") and s == S - 1:
+                    # a later session on the same file whose evaluator lists the same groups in reverse order: it either refuses the file
+                    # (nothing wrong gets recorded) or records the subject under the right columns
+                    class Ev2(Ev):
+                        segmentation_class_groups_names = list(reversed(gnames))
+                    for lk in (PA.filelock, PA.inevalfilelock):
+                        lk.held = False
+                    try:
+                        agg = PA.Panoptica_Aggregator(Ev2(), "/out/results.tsv")
+                    except AssertionError:
+                        h.note_nontrivial("refused")
+                        h.witness(expect=None)
+                        return
                 cur["s"] = s
                 agg.evaluate(None, None, snames[s])
             st = agg.make_statistic()
@@ -194,7 +207,7 @@ def _lookup(d, key, default=None):
 
 
 # ================================================================================================ real-package side
-def _real_roundtrip(groups, subjects, metrics, cells, scale=None):
+def _real_roundtrip(groups, subjects, metrics, cells, scale=None, reopen=False):
     import math
     import os
     import shutil
@@ -237,6 +250,17 @@ def _real_roundtrip(groups, subjects, metrics, cells, scale=None):
         ev = Ev()
         agg = Panoptica_Aggregator(ev, os.path.join(tmp, "results.tsv"))
         for s, sn in enumerate(subjects):
+            if reopen and s == len(subjects) - 1:
+                class Ev2(Ev):
+                    segmentation_class_groups_names = list(reversed(groups))
+
+                    def evaluate(self2, pred, ref, **kw):
+                        return Ev.evaluate(self2, pred, ref, **kw)
+                try:
+                    ev = Ev2()
+                    agg = Panoptica_Aggregator(ev, os.path.join(tmp, "results.tsv"))
+                except AssertionError:
+                    return None        # the reordered session is refused: nothing wrong is recorded
             ev.s = s
             agg.evaluate(None, None, sn)
         st = agg.make_statistic()
@@ -266,8 +290,8 @@ def _real_roundtrip(groups, subjects, metrics, cells, scale=None):
 
 
 def real_roundtrip(case, mode, expect):
-    bad = _real_roundtrip(case["groups"], case["subjects"], case["metrics"], case["cells"])
-    if bad is None:
+    bad = _real_roundtrip(case["groups"], case["subjects"], case["metrics"], case["cells"], reopen=case.get("reopen", False))
+    if bad is None and not case.get("reopen"):
         # trusted text layer: the same table with magnitudes that print in exponent notation
         for sc in (1e-5, 1e17, 1 / 3):
             bad = _real_roundtrip(case["groups"], case["subjects"], case["metrics"], case["cells"], scale=sc)
